@@ -138,7 +138,7 @@ class C32(Spec):
                 declared = list(range(1, n + 1))
                 rng.shuffle(declared)
                 cases.append(self.flat_case('flat-exh4', n, edges, declared, rng))
-        nflat, ntree = (500, 900) if tier == 'quick' else (4000, 8000)
+        nflat, ntree = (300, 600) if tier == 'quick' else (4000, 8000)
         for k in range(nflat):
             n = rng.randrange(4, 9)
             hidden = list(range(1, n + 1))
